@@ -196,6 +196,16 @@ Proof.
   intros o0 h'. rewrite (Hx h). destruct rx; simpl; intros H0; inversion H0; reflexivity.
 Qed.
 
+(* dupArg: the two arguments are the same value and evaluating them has no effects *)
+Theorem dup_arg_same p x y : dup_arg (ECall (FPrim p) [x; y]) = true -> same_value x y.
+Proof.
+  unfold dup_arg. intros H. apply andb_true_iff in H as [H P]. apply andb_true_iff in H as [_ E].
+  apply expr_eqb_eq in E. subst y.
+  intros en h Hen. split; [reflexivity|].
+  destruct (no_opaque_pure en x (rg_pure_no_opaque x P)) as [rx Hx].
+  intros o0 h'. rewrite (Hx h). destruct rx; simpl; intros H0; inversion H0; reflexivity.
+Qed.
+
 (* why == != <= >= are exempted for float operands: x == x is not a tautology *)
 Theorem dup_float_exemption_needed :
   cmp_val OEq (VFloat FNaN) (VFloat FNaN) = Some false /\ cmp_val ONe (VFloat FNaN) (VFloat FNaN) = Some true /\
